@@ -49,7 +49,14 @@ func NewFReader(fn string) FReader {
 	return FReader{r: r, b: b}
 }
 
-func (f FReader) read() (string, error) { return f.b.ReadString('\n') }
+func (f FReader) read() (string, error) {
+	line, err := f.b.ReadString('\n')
+	if err == io.EOF && line != "" {
+		// the last line of the file, without a line break
+		return line, nil
+	}
+	return line, err
+}
 
 func (f FReader) Close() error { return f.r.Close() }
 
